@@ -502,3 +502,85 @@ def make_screen(I=None):
             return (80, 24)
 
     return StubScreen()
+
+
+class ACursorLeaf(urwid.Widget):
+    """Selectable abstract widget implementing the cursor protocol: a free cursor (CX, CY) inside its own size;
+    records mouse / move_cursor_to_coords calls and answers them with solver-chosen Booleans.
+    kind: 'flow' (rows = R(c) >= 1) or 'box'."""
+
+    _selectable = True
+
+    def __init__(self, I, name, kind="flow"):
+        super().__init__()
+        self.I = I
+        self.name = name
+        self.kind = kind
+        self._sizing = frozenset([urwid.FLOW if kind == "flow" else urwid.BOX])
+        self.R = I.func("R_" + name, 2, bool_args=(1,)) if kind == "flow" else None
+        self.cx = I.int("CX_" + name, 0)
+        self.cy = I.int("CY_" + name, 0)
+        self.seen = []
+        self.events = []
+        self.moved = []
+        self.accept_mouse = I.bool("mouse_ok_" + name)
+        self.accept_move = I.bool("move_ok_" + name)
+        self.last_size = None
+
+    def sizing(self):
+        return self._sizing
+
+    def selectable(self):
+        return True
+
+    def _dims(self, size):
+        if self.kind == "flow":
+            (c,) = size
+            r = self.R(c, True)
+            if self.I.symbolic:
+                self.I.axiom(r >= 1)
+            return c, r
+        return size
+
+    def rows(self, size, focus=False):
+        return self._dims(size)[1]
+
+    def _cursor_ok(self, size):
+        c, r = self._dims(size)
+        # contract of the cursor protocol: the reported cursor lies inside the widget's own area
+        self.I.assume(api.And(self.cx < c, self.cy < r))
+
+    def get_cursor_coords(self, size):
+        self._cursor_ok(size)
+        return (self.cx, self.cy)
+
+    def get_pref_col(self, size):
+        return self.cx
+
+    def render(self, size, focus=False):
+        c, r = self._dims(size)
+        self.seen.append(("render", size, focus))
+        self.last_size = size
+        canv = urwid.CompositeCanvas(urwid.SolidCanvas("L", c, r))
+        if focus:
+            self._cursor_ok(size)
+            canv.cursor = (self.cx, self.cy)
+        self.canv = canv
+        return canv
+
+    def keypress(self, size, key):
+        self.seen.append(("keypress", size, key))
+        return key
+
+    def mouse_event(self, size, event, button, col, row, focus):
+        self.events.append((size, event, button, col, row, focus))
+        return bool(self.accept_mouse)  # a real bool: callers test the answer with `is False` / `is True`
+
+    def move_cursor_to_coords(self, size, col, row):
+        self.moved.append((size, col, row))
+        ok = bool(self.accept_move)
+        if ok:
+            if isinstance(col, int) or (MODE == "sym" and _isinstance(col, SymInt)):
+                self.cx = col
+            self.cy = row
+        return ok
